@@ -16,3 +16,19 @@ class ProductB:
 class ListingB(Generic[TB]):
     item: TB
     n: int = 0
+
+
+# the same names as in pools.py on purpose: a TypeVar bound written as a string is a module-less ForwardRef
+TM = TypeVar("TM", bound="Money")
+
+
+@dataclass
+class Money:
+    amount: int
+    cur: str = "EUR"
+
+
+@dataclass
+class MBox(Generic[TM]):
+    item: TM
+    n: int = 0
